@@ -1324,6 +1324,7 @@ def gen_world_dotdot_after_link(rng):
     w.add_file((b"scan0", b"copy.bin"), f.content)
     # the lexically "cleaned" directory exists too and holds a file of the declared length at the image's place
     w.add_file((b"out", g.hexhash, b"Data", b"payload.bin"), gen_content(rng, ln))
+    w.add_file((b"links", b"out", g.hexhash, b"Data", b"payload.bin"), gen_content(rng, ln))     # <root>/links/l/.. read lexically
     w.add_file((b"bystander", b"note.txt"), b"do not touch")
     w.resize = rng.chance(1, 2)
     w.threads = rng.choice([1, 3])
@@ -1337,10 +1338,10 @@ def gen_world_path_max(rng):
     Judged on the outcome (the model has no path length limit)."""
     w = World()
     comp = lambda c: bytes([c]) * 250
-    deep = [comp(97 + i) for i in range(16)]          # 16 * 251 = 4016 bytes of directories
-    files = []
+    deep = [comp(97 + i) for i in range(15)]          # 15 * 251 = 3765 bytes of directories: with the sandbox prefix (< 100
+    files = []                                        # bytes) the directory stays below 4096, the 250-byte file name does not
     for d in (b"A", b"B"):
-        files.append(TFile(8, [d] + deep + [b"track-" + b"x" * 90 + b".bin"], gen_content(rng, 8)))
+        files.append(TFile(8, [d] + deep + [b"track-" + b"x" * 240 + b".bin"], gen_content(rng, 8)))
     g = GT(b"deep", 4, files, True)
     w.gts = [g]; w.docs = [g.doc]; w.has_truth = False
     w.dirs.add(w.export)
